@@ -77,6 +77,10 @@ def static_verdicts(diff, props):
     return out
 
 
+def _sv_job(a):
+    return static_verdicts(*a)
+
+
 def main():
     props = sys.argv[1:]
     built = sorted(os.path.basename(f)[:-3].upper() for f in glob.glob(os.path.join(V, "sa", "rules", "c*.py")))
@@ -91,12 +95,16 @@ def main():
     with ThreadPoolExecutor(4) as ex:
         for r in ex.map(lane, range(4)):
             results += [x for x in r if x]
+    import multiprocessing as mp
+    usable = [r for r in results if r.get("confirmed")]
+    with mp.get_context("fork").Pool(14) as pool:
+        svs = dict(zip([r["id"] for r in usable], pool.map(_sv_job, [(r["_diff"].decode(), built) for r in usable], chunksize=1)))
     for r in sorted(results, key=lambda r: r["id"]):
         diff = r.pop("_diff", b"")
         if not r.get("confirmed"):
             print("%-8s NOT CONFIRMED: %s" % (r["id"], r.get("why")))
             continue
-        sv = static_verdicts(diff.decode(), built)
+        sv = svs[r["id"]]
         det = sorted(p for p, v in sv.items() if isinstance(v, dict) and v.get("status") == "violation")
         err = sorted(p for p, v in sv.items() if isinstance(v, dict) and v.get("status") == "error")
         prop, k = r["property"], str(r["k"])
